@@ -538,7 +538,26 @@ func genAccLine(r *Rng, a *accEntry, n int, mode int) (string, []string) {
 	case 1: // off by one around a well-formed value
 		v = wfValue(r, a.kind, n)
 		tag = "off-by-one"
-		switch r.Intn(4) {
+		switch r.Intn(6) {
+		case 4, 5:
+			// perturb the first length-like field of the type
+			tag = "field-perturbed"
+			switch {
+			case a.kind == "routes" && len(v) > 0:
+				v[0] = byte(r.Pick([]int{33, 33, 34, 40, 64, 128, 255}))
+			case a.kind == "strings" && len(v) > 0:
+				v[0] = byte(r.Pick([]int{0, int(v[0]) + 1, int(v[0]) - 1, 255}))
+			case a.kind == "vivc" && len(v) > 4:
+				v[4] = byte(r.Pick([]int{int(v[4]) + 1, int(v[4]) - 1, 255}))
+			case a.kind == "relay" && len(v) > 1:
+				if r.Bool() {
+					v[1] = byte(r.Pick([]int{int(v[1]) + 1, int(v[1]) - 1, 255}))
+				} else {
+					v[0] = byte(r.Pick([]int{0, 255}))
+				}
+			case len(v) > 0:
+				v[0] ^= 0x80
+			}
 		case 0:
 			if len(v) > 0 {
 				v = v[:len(v)-1]
@@ -785,7 +804,7 @@ func init() {
 					emit(fmt.Sprintf("v4acc %s 1 %s 7 -", a.name, hx(tile(r, a.kind, n))))
 					fill := make([]byte, n)
 					for i := range fill {
-						fill[i] = byte(r.Pick([]int{0, 1, 4, 32, 255}))
+						fill[i] = byte(r.Pick([]int{0, 1, 4, 32, 33, 255}))
 					}
 					emit(fmt.Sprintf("v4acc %s 1 %s 7 -", a.name, hx(fill)))
 				}
